@@ -145,12 +145,23 @@ func cmdCheck(args []string) int {
 		locked = map[string]bool{}
 	}
 
+	guardedUsers := map[string]bool{}
+	for _, g := range eng.cf.Guards {
+		if name, ok := strings.CutPrefix(g.Pattern, "global."); ok {
+			for _, u := range eng.globalUsers(name) {
+				guardedUsers[u] = true
+			}
+		}
+	}
 	// 1. generate
 	var obls, census []*Obligation
 	var reps []*FuncReport
 	for _, q := range eng.cf.Order {
 		c := eng.cf.Contracts[q]
 		touches := c.hasProp(prop) || contains(c.SafetyProps, prop) || contains(c.Touches, prop) || (!c.Trusted && !c.Lemma && eng.calleeProps(q)[prop])
+		if !touches && prop == "C16" && c.GuardsOn && guardedUsers[q] {
+			touches = true
+		}
 		if !touches {
 			for _, cl := range append(append([]*Clause{}, c.Ensures...), c.Requires...) {
 				if cl.Props != nil && cl.inProp(c, prop) {
@@ -168,6 +179,30 @@ func cmdCheck(args []string) int {
 				continue
 			}
 			obls = append(obls, ob)
+		}
+	}
+	// census obligations: every function that mentions a guarded package-level variable is under a
+	// contract with the guard discipline switched on
+	if prop == "C16" {
+		for _, g := range eng.cf.Guards {
+			name, ok := strings.CutPrefix(g.Pattern, "global.")
+			if !ok {
+				continue
+			}
+			us := eng.globalUsers(name)
+			var bad []string
+			for _, u := range us {
+				if c := eng.cf.Contracts[u]; c == nil || !c.GuardsOn || c.Trusted {
+					bad = append(bad, u)
+				}
+			}
+			o := &Obligation{Name: "census.global." + name, Base: "census.global." + name, Kind: "census", Func: "census", Clause: name, Props: []string{prop}, done: true, Solver: "syntactic census", Status: "unsat",
+				GoalText: fmt.Sprintf("every function mentioning the guarded variable %s is verified with guards on; users: %s", name, strings.Join(us, ", "))}
+			if len(bad) > 0 {
+				o.Status = "sat"
+				o.Output = "users without a guards-on contract: " + strings.Join(bad, ", ")
+			}
+			census = append(census, o)
 		}
 	}
 	// census obligations: every writer of a field declared stable is under contract
